@@ -41,6 +41,10 @@ type Case struct {
 	Procs    int    `json:"procs"`
 	Reps     int    `json:"reps"`
 	Progs    [][]Op `json:"progs"`
+	// Twins: how many further, independent cache objects of the same
+	// configuration run the same program at the same time (objects must not
+	// share mutable state).
+	Twins int `json:"twins,omitempty"`
 }
 
 func keyName(i int) string { return "key" + strconv.Itoa(i) }
@@ -327,10 +331,28 @@ func checkProgram(c Case) error {
 			procs = 4
 		}
 		runtime.GOMAXPROCS(procs)
+		twinErrs := make([]error, c.Twins)
+		var twins sync.WaitGroup
+		for i := 0; i < c.Twins; i++ {
+			twins.Add(1)
+			go func() {
+				defer twins.Done()
+				_, twinErrs[i] = execute(c)
+			}()
+		}
 		res, err := execute(c)
-		vp.EvalN("c10.execution", 1)
+		twins.Wait()
+		vp.EvalN("c10.execution", int64(1+c.Twins))
 		if err != nil {
 			return err
+		}
+		for i, terr := range twinErrs {
+			if terr != nil {
+				return fmt.Errorf("independent cache object #%d running the same program at the same time: %w", i+1, terr)
+			}
+		}
+		if c.Twins > 0 {
+			vp.Class("execution:several-cache-objects-at-once")
 		}
 		if res.overlapKey {
 			vp.Class("execution:same-key-overlap")
@@ -386,6 +408,9 @@ var programProp = vp.Register(vp.Prop[Case]{
 		}
 		if c.Conf >= 2 {
 			c.MaxCount = uint(rapid.IntRange(1, 3).Draw(t, "maxcount"))
+		}
+		if rapid.IntRange(0, 3).Draw(t, "twins") == 0 {
+			c.Twins = rapid.IntRange(1, 2).Draw(t, "ntwins")
 		}
 		if c.Conf == 3 {
 			c.MaxSize = uint(rapid.SampledFrom([]int{0, 30, 60}).Draw(t, "maxsize"))
